@@ -133,10 +133,24 @@ def acceptedFails (pre : State) (op : Op) (post : State) : List Fail :=
     chk (tokensSameExcept pre post "") "tx-tokens"
   | .deploy .. => chk (bankSame pre post && evmSameExcept pre post []) "deploy-ledgers-unchanged"
   | .evmFault _ => chk (bankSame pre post && evmSameExcept pre post []) "fault-ledgers-unchanged"
+  | .upgradeErc20 authority impl =>
+    -- only the authority upgrades; the upgrade touches no ledger and no token, only the beacon
+    chk (authority == GOV) "upgrade-only-authority" ++
+    chk (pre.params.erc20 && pre.params.beacon) "upgrade-erc20-enabled-and-beacon-set" ++
+    chk (hasCode pre impl) "upgrade-implementation-has-code" ++
+    chk (bankSame pre post && evmSameExcept pre post []) "upgrade-ledgers-unchanged" ++
+    chk (tokensSameExcept pre post "") "upgrade-tokens" ++
+    chk (post.impl == impl) "upgrade-implementation"
   | _ => chk (evmSameExcept pre post []) "erc20-untouched"
 
-/-- one step of the monitor: a failed conversion changes neither side -/
+def isUpgrade : Op → Bool
+  | .upgradeErc20 .. => true
+  | _ => false
+
+/-- one step of the monitor: a failed conversion changes neither side; the beacon's implementation
+changes only by an accepted `UpgradeERC20` -/
 def stepFails (pre : State) (op : Op) (accepted : Bool) (post : State) : List Fail :=
-  if accepted then acceptedFails pre op post else chk (sameState pre post) "rejected-unchanged"
+  if accepted then acceptedFails pre op post ++ chk (isUpgrade op || post.impl == pre.impl) "beacon-implementation-untouched"
+  else chk (sameState pre post) "rejected-unchanged"
 
 end Irismod.Spec.C10
